@@ -1,6 +1,7 @@
 import Driver.Common
 import QlibcModel.Conf.Ini
 import QlibcModel.Conf.Aconf
+import QlibcModel.Conf.AconfObj
 import QlibcModel.Conf.FileRead
 open Qlibc Qlibc.Conf
 
@@ -88,6 +89,31 @@ def runAc (flags defcb doc : String) (opts : List String) : String :=
         s!"add {os.length} {res} cbs {evs.length}" ++ String.join (evs.map showCb)
   | _, _ => "bad-op"
 
+/-- `acre`: the harness drives ONE parser object: a six-line file of comments, `reseterror`, the
+    document, `reseterror`, the document again - the last call is what it reports (return value,
+    `errmsg` of the object, callbacks of that call) -/
+def runAcRe (flags defcb doc : String) (opts : List String) : String :=
+  match hexNat flags, arg doc with
+  | some fl, .ok d =>
+    match opts.mapM optWord with
+    | none => "bad-op"
+    | some os =>
+      let cfg : Aconf.Cfg := { opts := os, defcb := defcb != "0", flags := fl % 256, cbFail := Aconf.harnessCbFail }
+      let path := Aconf.str "p"
+      let o := Aconf.Obj.uses cfg Aconf.Obj.fresh
+        [.parse path (Aconf.str "# warm\n\n# up\n\n\n# x\n"), .reset, .parse path d, .reset]
+      match o.parse cfg path d with
+      | .error f => faultStr f
+      | .ok (o', evs, r) =>
+        let ret := match r with
+          | .count n => s!"ret {n}"
+          | .err _ _ => "ret -1"
+        let em := match o'.errstr with
+          | none => "- -"
+          | some (_, l, m) => s!"{l} {hx m}"
+        s!"add {os.length} {ret} {em} cbs {evs.length}" ++ String.join (evs.map showCb)
+  | _, _ => "bad-op"
+
 def runFread (nb content : String) : String :=
   match arg content with
   | .ok c =>
@@ -108,7 +134,7 @@ def step (_ : Unit) (ws : List String) : Unit × String :=
     | "inif" :: sep :: main :: files => runInif sep main files
     | "ac" :: flags :: defcb :: doc :: opts => runAc flags defcb doc opts
     | "acp" :: _ :: flags :: defcb :: doc :: opts => runAc flags defcb doc opts
-    | "acre" :: flags :: defcb :: doc :: opts => runAc flags defcb doc opts        -- a parser object used before: the same reading
+    | "acre" :: flags :: defcb :: doc :: opts => runAcRe flags defcb doc opts      -- a parser object used before (Conf/AconfObj.lean)
     | "acpipe" :: flags :: defcb :: doc :: opts => runAc flags defcb doc opts      -- the same bytes, read through a pipe
     | "inifp" :: sep :: main :: files => runInif sep main files                    -- the main file is a pipe
     | "fread" :: nb :: content :: [] => runFread nb content
